@@ -32,6 +32,29 @@ Evidence: expression classes seen in the original, optimised and lowered express
 `rewritten_by_optimizer` = cases whose optimised expression differs from the original one (by _name).  FLOOR on
 rewritten_by_optimizer: a run in which the optimiser never rewrote anything is inconclusive.
 
+The rechunk-plan family (round 2, gen_rcplan_case in vf/gen/c30_pipeline.py): a multi-pass rechunk is what the engine's
+own _compute_rechunk is for, and random chunk pairs of tiny arrays almost never need one.  Candidates (transposing
+long-thin -> thin-long chunkings of 6..24 x 6..24 arrays, 2-d and 3-d, irregular chunkings, small block_size_limit,
+threshold 1..4 given as rechunk(threshold=, block_size_limit=) or through the config keys array.rechunk.threshold /
+array.chunk-size) are run through the pure planner dask.array.rechunk.plan_rechunk and selected by their plan: 60 % of the
+family must have >= 2 passes that CUT blocks (some block boundary of the pass's output is not a boundary of its input; each
+such pass emits split tasks), 30 % >= 2 passes, 10 % anything.  The rechunk is preceded by 0-1 and followed by 0-2 other
+steps (elementwise, map_blocks, T, reductions, slices, rechunk back to the old chunks).  Monitors: at EVERY rechunk node of
+every case the lazy result must have the chunks that were requested (tuple / int / -1 / None / dict entries; "auto" and
+balance are compared with the classic engine only) -> `rechunk_requested_chunks_checked`; the plan of the node is
+recomputed from the lazy chunks, the step's keywords and the case's configuration -> `rechunk_multi_pass_plans`,
+`rechunk_plans_with_two_splitting_passes`, `rechunk_plan_cases_with_neighbour_steps` (all floored).  Labels of a failing
+multi-pass rechunk: `rechunk&multi-step-plan[&two-cutting-passes]`.
+
+Keyword audit (round 2): the KEYWORDS table in vf/gen/c30_pipeline.py lists, per step kind, every keyword the engine
+implements and how the generator makes it non-default (from_array lock/inline_array/fancy/asarray; arange/linspace
+dtype/endpoint; ufunc dtype=; Ellipsis; reduction dtype= and split_every as dict and as config; rechunk threshold /
+block_size_limit / method / "auto" / None / -1 / dict with several and negative axes; concatenate axis=None,
+allow_unknown_chunksizes, parts of other dtypes, empty parts; map_blocks without dtype, with meta=, extra arguments,
+drop_axis, new_axis, chunks=, block_info, enforce_ndim; transpose()).  Keyword features enter the label only when the
+keyword-free label is not a known mechanism (_label).  A case may carry "config": it is applied around construction and
+computation in both engines.
+
 Note on the pinned tree: its optimiser has only three rewrite rules for arrays — Blockwise._lower (inserts
 rechunks to unify operand chunks), Rechunk._lower (drops no-op rechunks, picks TasksRechunk) and
 FinalizeComputeArray._simplify_down (final rechunk to one block); there is no slice/reduction pushdown to exercise.
@@ -47,6 +70,19 @@ Calibration
 * Pipelines with an inexact floating step are compared with a tolerance and contain no later comparison / any / all
   (a rounding difference would flip booleans; that would be the oracle's fault).
 * Mismatches against NumPy are not reported a second time against the classic engine.
+* (round 2) A binary ufunc called with dtype= gets a second operand chunked like the first ("match"): with differently
+  chunked operands the unsupported chunk unification above shows as TypeError (multiply() takes from 2 to 3 positional
+  arguments) instead of NotImplementedError; fixes_ready/C30_03 repairs the unification.
+* (round 2) An exception of the expression engine that the CLASSIC engine raises too, with the same type and message, on
+  the same pipeline is code the two engines share (seen: min/max over a >= 2-d array one of whose chunks is empty after
+  a slice, ValueError in _concatenate2): rejected, counted as `raised_alike_in_both_engines`, not a finding of this
+  property.
+* (round 2) An exception is attributed to the first node that is wrong in ANY way on its own prefix: if that is a mismatch
+  (shape, dtype, values) the finding is that mismatch with its own label, and the exception is kept as detail `later`
+  (before, the operation of the first mismatch and the exception type of an unrelated later failure were combined into
+  one label).
+* (round 2) The rechunk-plan family keeps python-scalar elementwise steps away from int32/float32 arrays (known dtype
+  finding, it would end the case before the rechunk).
 """
 from __future__ import annotations
 
@@ -69,29 +105,42 @@ from ..mon.compare import compare_arrays, float_tol, lazy_meta_mismatch
 PROP = "C30"
 RULE = ("cases = pipeline descriptions: one source (from_array/ones/zeros/arange/linspace, 1-3 d, lengths 1-6, 5 dtypes, "
         "random chunks) followed by 1-5 steps out of elementwise (unary, scalar, second array with broadcasting and its own "
-        "chunking), basic slicing, reductions, rechunk (tuple/int/dict/-1, balance), concatenate/stack with further sources, "
-        "map_blocks, T/transpose. Complete part: every chunking of a (3,2) array x every target chunking under "
-        "rechunk->sum(axis=0) and under rechunk->[1:, ::-1]->(+ y chunked alike). non-trivial = some "
-        "source or rechunk target has an axis split into >= 2 chunks; distinct = distinct description.")
+        "chunking, ufunc with dtype=), basic slicing (slices, integers, None, Ellipsis), reductions (axis, keepdims, dtype, "
+        "split_every int/dict/config), rechunk (tuple/int/dict/-1/auto/mixed, balance, threshold, block_size_limit, method), "
+        "concatenate/stack with further sources (axis incl. None, other dtypes, empty parts), map_blocks (dtype/inferred/meta, "
+        "extra arguments, drop_axis, new_axis, chunks, block_info), T/transpose; every keyword the engine implements is "
+        "non-default in some cases. Rechunk-plan family: transposing / irregular / block-size-limited rechunks of 6..24 x 6..24 "
+        "arrays selected by dask.array.rechunk.plan_rechunk for plans with >= 2 passes (60 % with >= 2 block-cutting passes), "
+        "threshold and block size limit by keyword or config, with 0-1 steps before and 0-2 after. Complete part: every "
+        "chunking of a (3,2) array x every target chunking under rechunk->sum(axis=0) and under "
+        "rechunk->[1:, ::-1]->(+ y chunked alike). non-trivial = some source or rechunk target has an axis split into >= 2 "
+        "chunks; distinct = distinct description.")
 ASSUMPTIONS = ["NumPy 2.x defines the expected values, dtype and shape",
                "the classic engine is evaluated in a helper subprocess with the same evaluator and the same descriptions",
                "sync scheduler in all three evaluations"]
-BUDGET = {"quick": 240, "thorough": 900}
-FLOORS = {"quick": {"evaluations": 500, "distinct_nontrivial": 420,
-                    "counters": {"compared_with_numpy": 480, "compared_with_classic": 460, "rewritten_by_optimizer": 250,
-                                 "compared_stage_optimize": 480, "compared_stage_lowered-unoptimized": 480,
-                                 "block_shapes_checked": 480, "classic_helper_calls": 1},
+BUDGET = {"quick": 240, "thorough": 1500}
+FLOORS = {"quick": {"evaluations": 670, "distinct_nontrivial": 590,
+                    "counters": {"compared_with_numpy": 610, "compared_with_classic": 590, "rewritten_by_optimizer": 400,
+                                 "compared_stage_optimize": 610, "compared_stage_lowered-unoptimized": 610,
+                                 "block_shapes_checked": 610, "classic_helper_calls": 1,
+                                 "rechunk_requested_chunks_checked": 420, "rechunk_multi_pass_plans": 165,
+                                 "rechunk_plans_with_two_splitting_passes": 120,
+                                 "rechunk_plan_cases_with_neighbour_steps": 160},
                     "sets": {"expr_classes": 8}, "max_skipped_fraction": 0.25},
           "thorough": {"evaluations": 5500, "distinct_nontrivial": 4600,
                        "counters": {"compared_with_numpy": 5200, "compared_with_classic": 5000, "rewritten_by_optimizer": 2700,
                                     "compared_stage_optimize": 5200, "compared_stage_lowered-unoptimized": 5200,
-                                    "block_shapes_checked": 5200, "classic_helper_calls": 1},
+                                    "block_shapes_checked": 5200, "classic_helper_calls": 1,
+                                    "rechunk_requested_chunks_checked": 4000, "rechunk_multi_pass_plans": 1600,
+                                    "rechunk_plans_with_two_splitting_passes": 1200,
+                                    "rechunk_plan_cases_with_neighbour_steps": 1600},
                        "sets": {"expr_classes": 8}, "max_skipped_fraction": 0.25}}
 EXHAUSTIVE_SPACE = ("all 8x8 (source chunking, target chunking) pairs of a (3,2) array under rechunk->sum(axis=0) and under "
                     "rechunk->[1:, ::-1]->(+ y)")
 CLAIM = ("Every generated pipeline was evaluated by NumPy, by the expression engine (compute, optimize().compute and the "
          "un-optimised lowered graph) and by the classic engine in a separate interpreter; values, dtype, shape were compared "
-         "pairwise and chunks between the two engines. held = no mismatch and no expression-engine exception inside the "
+         "pairwise and chunks between the two engines; every rechunk node was checked against the requested chunks, and a "
+         "counted number of rechunks had plans with >= 2 passes / >= 2 block-cutting passes. held = no mismatch and no expression-engine exception inside the "
          "domain on the executions observed, with the optimiser having rewritten a counted number of the pipelines.")
 LEVEL_NOTE = ("NumPy and the classic engine are the references; only the operations the statement lists; the pinned "
               "optimiser has three array rewrite rules (chunk unification, rechunk lowering, final rechunk)")
@@ -105,12 +154,18 @@ PENDING = {
         "x[int, None, ...]: None inserted at the position shifted by the preceding integers (SlicesWrapNone uses the shifted where_none for the block indexer)",
     "expr:slice&None&int:ValueError":
         "same mechanism with several blocks: wrongly shaped blocks cannot be assembled (concatenate3) / sliced (getitem)",
-    "expr:rechunk&multi-step-plan:TypeError@_task_spec.py:__call__":
-        "rechunk whose plan has >= 2 stages: _compute_rechunk returns the shadowed loop variable `name` (a split key tuple) "
-        "instead of merge_name, so the second stage reads blocks from a tuple",
     "expr:any-op-on-input-without-meta:ValueError":
         "stack() meta has a non-zero dimension -> elementwise with another array has _meta None -> the next operation raises",
     "expr:any-op-on-input-without-meta:AttributeError": "same mechanism, other raise site ('NoneType' object has no attribute 'dtype')",
+    # round 2 (known_findings.d/C30_b.json)
+    "expr-lazy:source:arange&dtype-keyword:dtype-is-str-not-numpy-dtype":
+        "arange(dtype='float32').dtype is the str passed in; a following rechunk / the final rechunk of compute raises AttributeError",
+    "expr-lazy:source:linspace&dtype-keyword:dtype-is-str-not-numpy-dtype": "same mechanism for linspace(dtype=...)",
+    "expr-lazy:elemwise:array&ufunc-dtype-keyword:dtype-is-str-not-numpy-dtype": "same mechanism for da.add(x, y, dtype='float32')",
+    "expr:concat&axis-None:AttributeError@array/_array_expr/_collection.py:concatenate":
+        "concatenate(axis=None) calls Array.flatten, which the expression-engine Array does not have",
+    "expr:map_blocks&binfo:result-without-meta&later-op-fails":
+        "map_blocks(f, dtype=...) with an f taking block_info has _meta None; whatever operation follows fails",
 }
 CASE_TIMEOUT = 900        # a case may have to wait for the helper subprocess of its whole group
 
@@ -491,7 +546,24 @@ def _meta_origin(case, k):
     return None
 
 
-def _exc_violation(ctx, case, k, pref, ex):
+def _raised_alike_in_classic(ex, classic):
+    """The classic engine raised the same exception (type and message) on the same pipeline: the failure is in code the
+    two engines share, which is not what this property is about."""
+    try:
+        c = classic() if classic else None
+    except Exception:  # noqa: BLE001
+        return False
+    if not c or "error" not in c or c.get("notimpl"):
+        return False
+    mine = "%s: %s" % (type(ex).__name__, ex)
+    return mine[:120] == c["error"][:120]
+
+
+def _exc_violation(ctx, case, k, pref, ex, classic=None):
+    if _raised_alike_in_classic(ex, classic):
+        ctx.count("raised_alike_in_both_engines")
+        ctx.reject("both engines raise %s: %s" % (type(ex).__name__, str(ex)[:100]))
+        return
     origin = _meta_origin(case, k)
     if 0 < k <= len(case["steps"]) and case["steps"][k - 1]["op"] == "concat" and case["steps"][k - 1]["axis"] is None \
             and isinstance(ex, AttributeError):
@@ -524,18 +596,18 @@ def _dtype_is_str(ctx, case, k, dx, pref):
         return False
     if isinstance(dt, np.dtype):
         return False
-    origin = _meta_origin(case, k + 1)
+    origin = _meta_origin(case, k)          # strictly upstream of node k
     if origin is not None and origin > 0 and case["steps"][origin - 1]["op"] == "mb":
         ctx.violation("expr:%s:result-without-meta&later-op-fails" % _opdesc(case, origin, pref), "lazy .dtype is %r" % (dt,), prefix_len=k)
-        _classic_result(case)
         return True
+    if origin is not None:
+        return False        # the known lost-meta mechanism (stack): reported if and when something actually fails
     if k == 0:
         name = "source:%s&dtype-keyword" % case["src"]["k"]
     else:
         st = case["steps"][k - 1]
         name = "elemwise:array&ufunc-dtype-keyword" if st["op"] == "ew2" else st["op"] + (":" + st["f"] if "f" in st else "")
     ctx.violation("expr-lazy:%s:dtype-is-%s-not-numpy-dtype" % (name, type(dt).__name__), "lazy .dtype is %r" % (dt,), prefix_len=k)
-    _classic_result(case)
     return True
 
 
@@ -567,9 +639,10 @@ def _check_expr_prefix(case, k, pref, tol):
     return None
 
 
-def _localise(case, pref, tol):
-    """First node of the spine at which the expression engine is wrong on its own prefix: (k, pair, symptom, msg) or None."""
-    for k in range(len(case["steps"]) + 1):
+def _localise(case, pref, tol, upto=None):
+    """First node of the spine (up to node `upto`) at which the expression engine is wrong on its own prefix:
+    (k, pair, symptom, msg) or None."""
+    for k in range((len(case["steps"]) if upto is None else upto) + 1):
         r = _check_expr_prefix(case, k, pref, tol)
         if r:
             return (k,) + r
@@ -577,6 +650,20 @@ def _localise(case, pref, tol):
 
 
 def _run(case, ctx):
+    box = {}
+
+    def classic():
+        if "c" not in box:
+            box["c"] = _classic_result(case)
+        return box["c"]
+
+    try:
+        _run2(case, ctx, classic)
+    finally:
+        classic()          # every case takes its result out of the helper's queue, whatever happened
+
+
+def _run2(case, ctx, classic):
     import dask.array as da
 
     nsteps = len(case["steps"])
@@ -594,7 +681,6 @@ def _run(case, ctx):
             pref.append(np.asarray(x))
     except Exception as ex:  # noqa: BLE001
         ctx.reject("numpy: %s: %s" % (type(ex).__name__, ex))
-        _classic_result(case)          # drop the helper's result for this case
         return
     e = pref[-1]
     scale = 1.0
@@ -621,7 +707,6 @@ def _run(case, ctx):
                 msg = _requested_chunks_mismatch(prev, dx, st)
                 if msg:
                     ctx.violation("expr-lazy:%s:chunks-differ-from-requested" % _opdesc(case, k, pref), msg, prefix_len=k)
-                    _classic_result(case)
                     return
                 npass, ncut = _plan_of(prev, dx, st)
                 if npass >= 2:
@@ -632,7 +717,6 @@ def _run(case, ctx):
                     ctx.count("rechunk_plan_cases_with_neighbour_steps")
         if not isinstance(dx, da.Array):
             ctx.violation("expr:%s:result-not-a-dask-array" % _opdesc(case, nsteps, pref), "got %r" % (type(dx),))
-            _classic_result(case)
             return
         k = nsteps + 1
         _walk_classes(ctx, dx.expr)
@@ -645,15 +729,18 @@ def _run(case, ctx):
         v1, v2, v3, blockmsg = _expr_values(dx)
     except NotImplementedError as ex:
         ctx.unsupported("%s: %s" % (names[min(k, nsteps)], ex))
-        _classic_result(case)
         return
     except Exception as ex:  # noqa: BLE001
-        if k <= nsteps:
-            _exc_violation(ctx, case, k, pref, ex)
+        # the first node that is wrong in any way on its own prefix is the mechanism: an exception here is often the
+        # consequence of a wrong shape / dtype / block layout further up
+        loc = _localise(case, pref, tol, upto=min(k, nsteps))
+        if loc and not isinstance(loc[3], BaseException):
+            ctx.violation(_label(loc[1], case, loc[0], pref, loc[2]), loc[3], prefix_len=loc[0], ops=names[:loc[0] + 1],
+                          later="%s: %s" % (type(ex).__name__, str(ex)[:200]))
+        elif loc:
+            _exc_violation(ctx, case, loc[0], pref, loc[3], classic)
         else:
-            loc = _localise(case, pref, tol)
-            _exc_violation(ctx, case, loc[0] if loc else nsteps, pref, ex)
-        _classic_result(case)
+            _exc_violation(ctx, case, min(k, nsteps), pref, ex, classic)
         return
     ctx.count("compared_with_numpy")
     ctx.sample = {"ops": names, "result_shape": list(v1.shape), "dtype": str(v1.dtype), "chunks": [list(c) for c in dx.chunks],
@@ -662,8 +749,7 @@ def _run(case, ctx):
         wrong = _cmp(v1, e, tol) or lazy_meta_mismatch(dx, v1)
     except Exception as ex:  # noqa: BLE001  (e.g. .dtype of an expression that lost its meta)
         loc = _localise(case, pref, tol)
-        _exc_violation(ctx, case, loc[0] if loc else nsteps, pref, loc[3] if (loc and isinstance(loc[3], BaseException)) else ex)
-        _classic_result(case)
+        _exc_violation(ctx, case, loc[0] if loc else nsteps, pref, loc[3] if (loc and isinstance(loc[3], BaseException)) else ex, classic)
         return
     stage_wrong = []
     for stage, v in (("optimize", v2), ("lowered-unoptimized", v3)):
@@ -677,7 +763,7 @@ def _run(case, ctx):
         if loc:
             kk, pair, symptom, msg = loc
             if isinstance(msg, BaseException):
-                _exc_violation(ctx, case, kk, pref, msg)
+                _exc_violation(ctx, case, kk, pref, msg, classic)
             else:
                 ctx.violation(_label(pair, case, kk, pref, symptom), msg, prefix_len=kk, ops=names[:kk + 1])
         elif wrong:       # cannot happen unless evaluation is not deterministic
@@ -689,11 +775,10 @@ def _run(case, ctx):
             for stage, m2, v in stage_wrong:
                 ctx.violation("expr-%s-vs-numpy:%s:%s" % (stage, _opdesc(case, nsteps, pref), m2[0]), m2[1],
                               result=repr(v)[:300], expected=repr(e)[:300])
-        _classic_result(case)
         return
 
     # 3. classic engine (only when the expression engine agrees with NumPy: one mechanism, one label)
-    c = _classic_result(case)
+    c = classic()
     if "error" in c:
         ctx.count("classic_notimplemented" if c.get("notimpl") else "classic_raised")
         ctx.distinct("classic_errors", c["error"][:60])
